@@ -500,7 +500,8 @@ EOLS = ["\r\n"] * 8 + ["\n", "\r\r\n", "\n"]
 HOSTS = ["x", "example.com", "x:80", "[::1]:8080", "x:", "a%41b", "127.0.0.1", "X.Y:0080", "a_b~c", "x;y=z", "h:" + "7" * 30]
 BAD_HOSTS = ["a,b", "bad host", "a%4", "a%zz", "a/b", "", "x\xe9", "a@b", "a?b", "x,", "a\\b", "%"]
 CONNS = [None] * 5 + ["close", "keep-alive", "Keep-Alive", "Close", "close, x", "upgrade", "CLOSE"]
-CL_VARIANTS = ["{n}", "{n}", "{n}", "0{n}", "{n},{n}", "{n}, {n}", "{n},\t {n}", "{n},\xa0{n}"]
+CL_VARIANTS = ["{n}", "{n}", "{n}", "0{n}", "{n},{n}", "{n}, {n}", "{n},\t {n}", "{n},\xa0{n}", "{n},\x85{n}",
+               "{n}, \xa0{n}", "{n},{n},\xa0{n}"]   # NBSP / NEL after the comma: rejected (400) since the cl-list fix
 CL_BAD = ["+{n}", "{n}.0", "0x{n}", "{n},{m}", "{n},{n},{m}", "{n}, {n}, {m}", "{n} {n}", "-{n}", "{n}a", "", ",{n}", "{n},", "\xb9", "{n};q=1", "1_0"]
 TE_OK = ["chunked", "Chunked", "CHUNKED", "chunKed"]
 TE_BAD = ["gzip", "chunked, gzip", "gzip, chunked", "identity", "chunked,chunked", ",chunked", "chunked;q=1", "x", "chunke", "chunkedd", ""]
